@@ -177,6 +177,41 @@ func c18Run(c *c18Case, full bool) (exp, act, sig, key string, ok bool) {
 			}
 			return diffEntries(want, got, true), diffEntries(want, got, false), "table: " + kind, "", false
 		}
+		// (2b) the same last call as a DIRECTIVE of a text that goes on with a clause using the operators: the rest of the
+		// text is read under the table the directive left (the operands are numbers, so that the operator's name is the
+		// first atom the reader looks up after the directive). A transition, not a state: done for every history.
+		if !res.Err && !strings.HasPrefix(g, c18SweepPrefix) && !strings.Contains(strings.Join(c.History, " "), c18SweepPrefix) {
+			for _, n := range []string{"o1", "o2"} {
+				defs := model[n]
+				_, pre := defs["prefix"]
+				_, isInf := defs["infix"]
+				_, post := defs["postfix"]
+				q := "'" + n + "'"
+				for _, pb := range []struct {
+					text, want string
+					parses     bool
+				}{{n + " 1", q + "(1)", pre}, {"1 " + n + " 2", q + "(1,2)", isInf}, {"1 " + n, q + "(1)", post}} {
+					im2 := h.NewImpl()
+					for _, g0 := range c.History[:len(c.History)-1] {
+						im2.Query(g0+".", nil, 2)
+					}
+					err := im2.P.Exec(":- " + g + ".\nrd_probe((" + pb.text + ")).\n")
+					if (err == nil) != pb.parses {
+						return fmt.Sprintf("a text ':- %s. rd_probe((%s)).' loads: %v", g, pb.text, pb.parses), fmt.Sprint("Exec returned ", err), "reader: the rest of a text does not follow the table its directive left", "", false
+					}
+					if err == nil {
+						_, ans := im2.QueryTerms("rd_probe(X).", []string{"X"}, 2)
+						if len(ans) != 1 || ref.Canon(ans[0][0], ref.NewNamer()) != pb.want {
+							got := "no answer"
+							if len(ans) == 1 {
+								got = ref.Canon(ans[0][0], ref.NewNamer())
+							}
+							return fmt.Sprintf("after ':- %s.' in the same text, %s reads as %s", g, pb.text, pb.want), got, "reader: the rest of a text does not follow the table its directive left", "", false
+						}
+					}
+				}
+			}
+		}
 		if !full {
 			continue // this table state has been probed completely before
 		}
@@ -325,7 +360,7 @@ func c18Run(c *c18Case, full bool) (exp, act, sig, key string, ok bool) {
 				case "xfx":
 					parse = false
 				}
-				if e, a, okk := probe("a "+n+" b "+n+" c", parse, want); !okk && inf.Spec != "xfx" {
+				if e, a, okk := probe("a "+n+" b "+n+" c", parse, want); !okk {
 					return e, a, "reader: associativity does not follow the specifier", "", false
 				}
 			}
@@ -464,7 +499,7 @@ func c18Replay(b []byte) (string, string, bool) {
 func init() {
 	h.Register(&h.Check{
 		ID:            "C18",
-		Rule:          "explicit-state BFS over op/3 histories: alphabet = priorities {0,200,700,1200,1201} (thorough: {-1,0,1,200,700,1000,1001,1200,1201, a non-integer, unbound}) x specifiers {the seven, foo} (thorough: plus 1, unbound) x names {o1, -, [o1,o2], [o2,o1], [o1,'[]'], '|', ',', the one-character atom NUL (internal value 0)} (thorough: plus o2, '[]', '{}', partial list, list with a number / an unbound member, a number, unbound, [o2,-], []); states = distinct reference tables; every history up to depth D, expanding each table state once. After EVERY transition: success/error as ISO prescribes, the complete table through current_op/3, current_op/3 in all 8 instantiation patterns for 6 probe names x all specifiers and priorities, reader probes (prefix/infix/postfix use parses iff defined, with the structure and associativity the specifier implies) and writer probes (operator notation iff defined). Distinct = table state.; the alphabet also holds 16 SWEEPS (an enumeration by current_op/3 in one of 4 instantiation patterns that stays open while every operator named o1/o2 it reaches is removed and other current_op/3 calls of 4 kinds run: every such operator is reached exactly once), and the search is repeated from a second root, a table that already holds user operators of three names and classes",
+		Rule:          "explicit-state BFS over op/3 histories: alphabet = priorities {0,200,700,1200,1201} (thorough: {-1,0,1,200,700,1000,1001,1200,1201, a non-integer, unbound}) x specifiers {the seven, foo} (thorough: plus 1, unbound) x names {o1, -, [o1,o2], [o2,o1], [o1,'[]'], '|', ',', the one-character atom NUL (internal value 0)} (thorough: plus o2, '[]', '{}', partial list, list with a number / an unbound member, a number, unbound, [o2,-], []); states = distinct reference tables; every history up to depth D, expanding each table state once. After EVERY transition: success/error as ISO prescribes, the complete table through current_op/3, current_op/3 in all 8 instantiation patterns for 6 probe names x all specifiers and priorities, reader probes (prefix/infix/postfix use parses iff defined, with the structure and associativity the specifier implies) and writer probes (operator notation iff defined); and after every transition the same op/3 call as a directive of a text that goes on with a clause using o1/o2 in prefix, infix and postfix position: the rest of the text is read under the table the directive left. Distinct = table state.; the alphabet also holds 16 SWEEPS (an enumeration by current_op/3 in one of 4 instantiation patterns that stays open while every operator named o1/o2 it reaches is removed and other current_op/3 calls of 4 kinds run: every such operator is reached exactly once), and the search is repeated from a second root, a table that already holds user operators of three names and classes",
 		Explanation:   "state = the reference operator table (ISO 8.14.3: one definition per name and class, 0 removes, no infix+postfix of one name, ',' '|' '[]' '{}' rules, a failing call changes nothing); transition = one op/3 call on the real interpreter (history replayed on a fresh instance); the initial table is read from a fresh instance",
 		Assumptions:   []string{"which error a failing op/3 raises is not compared (C05 checks that it is an ISO error term), only that it fails and leaves the table unchanged", "priority 0 for a name whose conflicting class exists (ISO silent) may succeed or fail"},
 		Work:          c18Work,
